@@ -1,10 +1,10 @@
 SPECIFICATION Spec
 CONSTANTS
-  NB = 5
-  OpKinds = {"add", "addu", "rem"}
+  NB = 3
+  OpKinds = {"add", "addu", "rem", "sync"}
   MaxLen = 3
   MaxLevel = 6
-  Inits = {"one"}
+  Inits = {"one", "split"}
   Patterns = {"rand"}
   Emit = "state"
 INVARIANTS EmitCase
